@@ -29,6 +29,11 @@ class K:
         t = a + b
         return t * K.STEP
 
+    def _pick2(self, flag, a, b):
+        if flag:
+            return a
+        return b
+
     def f4(self, data, n):
         """module / class constants, helpers (expression, multi-statement, method, static), guard clauses,
         to_bytes, b''.join, `in`, comprehension forms"""
@@ -38,9 +43,10 @@ class K:
             head = MAGIC + (len(data) & 0xffff).to_bytes(2, 'little') + n.to_bytes(WIDTH, byteorder='big')
         else:
             head = b''.join([_blk(n, i + 1) for i in range(2)])
+        me = self
         acc = []
         for i in range(len(data)):
-            acc.append(self._mix(data[i], n))
+            acc.append(me._mix(data[i], self._pick2(n > 7, n, 7)))
         out = b''
         for i in range(len(acc)):
             out += bytes([self._mix(data[i], i)])
